@@ -210,6 +210,10 @@ func callFeatures(cmd string, args []pv, optVals []pv) []string {
 				break
 			}
 		}
+	case "str:repeat":
+		if len(args) == 2 && args[1].Rat != nil && args[1].Rat.IsInt() && args[1].Rat.Cmp(big.NewRat(1<<31-1, 1)) >= 0 {
+			fs = append(fs, "str-repeat-huge-count")
+		}
 	case "randint":
 		if len(args) == 2 && args[0].Rat != nil && args[1].Rat != nil && args[0].Rat.IsInt() && args[1].Rat.IsInt() &&
 			args[0].Rat.Num().IsInt64() && args[1].Rat.Num().IsInt64() &&
@@ -456,6 +460,9 @@ func run(c *reg.Ctx) {
 			}
 		}
 	}
+	// 3b'. boundary sweeps (deterministic, every run)
+	x.indexSweep()
+	x.intPositionSweep(cmds, ar)
 	// 3c. calls with pool arguments
 	nCalls := c.N * 3 / 5
 	per := nCalls / max(1, len(cmds))
@@ -498,6 +505,134 @@ var bigPairs = [][3]string{
 
 // commands that legitimately compute for a time exponential in such operands
 var bigPairBusy = map[string]bool{"math:pow": true}
+
+// ---- machine-integer boundaries in every integer-like position --------------
+
+// exact boundaries: 0, -1, 1, +-2^31, +-2^32, 2^63-1, -2^63+1, +-2^63 and their neighbours
+var boundaries = []string{"0", "-1", "1", "2147483647", "2147483648", "-2147483648", "-2147483649",
+	"4294967296", "-4294967296", "9223372036854775807", "-9223372036854775807",
+	"-9223372036854775808", "9223372036854775808", "-9223372036854775809"}
+
+// the ones used as second bound of a slice
+var sliceOther = []string{"-1", "9223372036854775807", "-9223372036854775808"}
+
+var indexables = []string{"abc", `"a\u00e9\u20ac"`, "''", "[a b c]", "[]", "[&a=b &0=c]"}
+
+// indexSweep: every indexable value kind x every boundary x index / slice /
+// assoc / dissoc / has-key / element assignment / element deletion.
+func (x *runner) indexSweep() {
+	emit := func(prog string) { x.search("index-sweep", "index", prog, nil) }
+	for _, v := range indexables {
+		for _, b := range boundaries {
+			emit(fmt.Sprintf("var v = %s; put $v[%s]", v, b))
+			emit(fmt.Sprintf("var v = %s; put $v[(num %s)]", v, b))
+			emit(fmt.Sprintf("var v = %s; put $v[%s..]", v, b))
+			emit(fmt.Sprintf("var v = %s; put $v[..%s]", v, b))
+			emit(fmt.Sprintf("var v = %s; put $v[..=%s]", v, b))
+			for _, o := range sliceOther {
+				emit(fmt.Sprintf("var v = %s; put $v[%s..%s]", v, b, o))
+				emit(fmt.Sprintf("var v = %s; put $v[%s..=%s]", v, o, b))
+			}
+			for _, k := range []string{b, "(num " + b + ")"} {
+				emit(fmt.Sprintf("assoc %s %s x", v, k))
+				emit(fmt.Sprintf("dissoc %s %s", v, k))
+				emit(fmt.Sprintf("has-key %s %s", v, k))
+			}
+			emit(fmt.Sprintf("var v = %s; set v[%s] = x; put $v", v, b))
+			emit(fmt.Sprintf("var v = %s; del v[%s]; put $v", v, b))
+		}
+	}
+}
+
+var numberWords = []string{"cannot parse", "must be integer", "must be number", "need number", "integer", "number"}
+
+// intPositionSweep: finds the integer-like argument positions and options of
+// every command (a non-number is refused there with a number-related error, 1
+// is not) and puts every boundary there, as a string and as a typed number.
+func (x *runner) intPositionSweep(cmds []string, ar map[string]arity) {
+	type slot struct {
+		cmd     string
+		n, pos  int    // pos < 0: option
+		opt     string // option name
+		zz, one response
+	}
+	call := func(sl *slot, val string) string {
+		args := make([]string, sl.n)
+		for i := range args {
+			args[i] = "1"
+		}
+		prog := sl.cmd
+		if sl.pos >= 0 {
+			args[sl.pos] = val
+		}
+		if len(args) > 0 {
+			prog += " " + strings.Join(args, " ")
+		}
+		if sl.pos < 0 {
+			prog += " &" + sl.opt + "=" + val
+		}
+		return prog + " | verif:sink"
+	}
+	var slots []*slot
+	for _, cmd := range cmds {
+		if _, r := restrictedCmds[cmd]; r || bigPairBusy[cmd] {
+			continue
+		}
+		a := ar[cmd]
+		n := a.lo
+		switch {
+		case a.hi < 0 && n < 2:
+			n = 2
+		case a.hi > a.lo:
+			n = a.lo + 1
+		}
+		for pos := 0; pos < n && pos < 4; pos++ {
+			slots = append(slots, &slot{cmd: cmd, n: n, pos: pos})
+		}
+		seen := map[string]bool{}
+		for _, o := range x.opts[cmd] {
+			if !seen[o] {
+				seen[o] = true
+				slots = append(slots, &slot{cmd: cmd, n: a.lo, pos: -1, opt: o})
+			}
+		}
+	}
+	for _, sl := range slots {
+		sl := sl
+		x.search("int-probe", "call:"+sl.cmd, call(sl, "zz"), func(r response) { sl.zz = r })
+		x.search("int-probe", "call:"+sl.cmd, call(sl, "1"), func(r response) { sl.one = r })
+	}
+	x.flush()
+	for _, sl := range slots {
+		if sl.zz.Outcome != "exception" {
+			continue
+		}
+		numeric := false
+		for _, w := range numberWords {
+			if strings.Contains(sl.zz.Msg, w) {
+				numeric = true
+			}
+		}
+		if !numeric || (sl.one.Outcome == "exception" && sl.one.Msg == strings.Replace(sl.zz.Msg, "zz", "1", -1)) {
+			continue
+		}
+		x.c.Count("integer-like-positions")
+		for _, b := range boundaries {
+			for _, val := range []string{b, "(num " + b + ")"} {
+				class := "call:" + sl.cmd
+				if sl.pos >= 0 {
+					args := make([]pv, sl.n)
+					for i := range args {
+						args[i] = exact("1", "num-str", "1")
+					}
+					args[sl.pos] = exact(val, "num", b)
+					class = classOf(callFeatures(sl.cmd, args, nil), class)
+				}
+				x.search("int-sweep", class, call(sl, val), nil)
+			}
+		}
+	}
+}
 
 type plantedProg struct{ class, prog string }
 
@@ -548,6 +683,10 @@ var planted = []plantedProg{
 	{"call:flag:parse", "flag:parse [-a 3] [[a 1 d] [b x d]]"},
 	{"call:str:repeat", "str:repeat abc 3074457345618258603"},
 	{"call:str:repeat", "str:repeat abc -1"},
+	{"str-repeat-huge-count", "str:repeat 1 9223372036854775807"},
+	{"index", "put abc[-9223372036854775808]"},
+	{"index", "put abc[-9223372036854775808..]"},
+	{"index", "assoc abc -9223372036854775808 x"},
 }
 
 // ---- redirections ----------------------------------------------------------
